@@ -213,6 +213,105 @@ def jobs_C20(rng):
     return "rasterize", th, repr
 
 
+def jobs_C01(rng):
+    """save + load of independent collections to separate files (a dataset export running on a pool)."""
+    import os
+    from pathlib import Path
+
+    import soundevent.io.aoef as A
+    from rv.gen import graphs
+    from rv.props import aoef_common as AC
+
+    root = Path(AC.tmpdir()) / "conc"
+    root.mkdir(parents=True, exist_ok=True)
+    save, load = _o(A.save), _o(A.load)
+    th = []
+    for i in range(10):
+        kind = rng.choice(graphs.COLLECTIONS)
+        gseed = rng.getrandbits(40)
+        adir = rng.choice([None, root / "audio"])
+
+        def job(kind=kind, gseed=gseed, adir=adir, i=i):
+            obj, _ = graphs.make(kind, gseed, audio_root=root / "audio", p_outside=0.0, p_opt=0.6, p_share=0.4, size=2)
+            path = root / f"c-{os.getpid()}-{gseed}-{i}.json"
+            save(obj, path, audio_dir=adir)
+            text = path.read_text()
+            loaded = load(path, audio_dir=adir)
+            return (text[text.index('"data"'):], loaded == obj, loaded.model_dump_json())
+
+        th.append(job)
+    return "aoef_save_load", th, repr
+
+
+jobs_C02 = jobs_C01
+jobs_C18 = jobs_C01
+
+
+def jobs_C09(rng):
+    """The four evaluation tasks on independent inputs."""
+    import warnings
+
+    from rv.props import c09, eval_common as E
+
+    th = []
+    for i in range(8):
+        task = rng.choice(E.TASKS)
+        spec = E.random_case(random.Random(rng.getrandbits(32)), task, n_clips=rng.choice([2, 3, 4]))
+
+        def job(spec=spec):
+            cps, cas, tags, _ = E.build(spec)
+            with warnings.catch_warnings():
+                warnings.simplefilter("ignore")
+                ev = _o(c09._task(spec["task"]))(cps, cas, tags)
+            return c09.summarise(ev)
+
+        th.append(job)
+    return "evaluation_tasks", th, repr
+
+
+jobs_C08 = jobs_C09
+
+
+def jobs_C10(rng):
+    from soundevent import data
+    from soundevent.io.crowsetta import labels as L
+
+    terms = [data.Term(name=f"cz:{k}", label=f"L{k}", definition="d") for k in range(3)]
+    th = []
+    for i in range(24):
+        tags = [data.Tag(term=rng.choice(terms), value=rng.choice("abc")) for _ in range(rng.randint(0, 4))]
+        kw = rng.choice([{}, {"index": rng.randint(-3, 3)}, {"select_by_key": rng.choice(["L0", "L1"])}, {"separator": "|"}, {"empty_label": "none"}])
+        lab = rng.choice(["x", "L1:b", "", "a,b"])
+        if rng.random() < 0.5:
+            th.append(lambda tags=tags, kw=kw: _o(L.label_from_tags)(list(tags), **kw))
+        else:
+            th.append(lambda lab=lab: [(t.term.label, t.value) for t in _o(L.label_to_tags)(lab, key_mapping={"x": "L2"}, fallback="fb")])
+    return "crowsetta_labels", th, repr
+
+
+def jobs_C15(rng):
+    """Clips of the same files read from several threads (a data loader with workers)."""
+    from soundevent.audio import io as AIO
+    from rv.props import c15
+
+    th = []
+    files = [(rng.choice([8000, 22050, 44100]), rng.choice([1, 2]), rng.choice([4000, 12001]), rng.getrandbits(16)) for _ in range(3)]
+    for i in range(16):
+        sr, ch, n, seed = rng.choice(files)
+        a = rng.uniform(0, n / sr * 0.8); b = a + rng.uniform(0, n / sr * 0.5)
+
+        def job(sr=sr, ch=ch, n=n, seed=seed, a=a, b=b):
+            from soundevent import data
+
+            path, _ = c15.make_file(sr, ch, n, seed)
+            rec = data.Recording(path=path, duration=n / sr, channels=ch, samplerate=sr)
+            w = _o(AIO.load_clip)(data.Clip(recording=rec, start_time=a, end_time=b))
+            return (w.shape, float(w.data.sum()), float(w.time.data[0]) if w.sizes["time"] else None, w.time.attrs.get("step"))
+
+        th.append(job)
+    return "load_clip", th, repr
+
+
 JOBS = {k[5:]: v for k, v in list(globals().items()) if k.startswith("jobs_")}
 
 
